@@ -522,3 +522,101 @@ package binary
 //@   ensures(legacyname) err == nil && v > 0 ==> forall(k, 0, len(result.Name), result.Name[k] == rin(sw.reader)[p0 + 4 + k])
 //@   ensures(mono) rpos(sw.reader) >= p0
 //@   ensures(valid) validSR(sw)
+
+// ---------------------------------------------------------------------------
+// Pools (trusted): a borrowed object is exclusively owned by the borrower
+// (isolation between concurrent borrowers is property C18, not claimed).
+
+//@ contract NewStreamWriter
+//@   trusted
+//@   modifies nothing
+//@   ensures result != nil && fresh(result) && result.writer == w
+
+//@ contract (*StreamWriter).Close
+//@   trusted
+//@   modifies sw.writer
+//@   ensures result == nil
+
+//@ contract NewStreamReader
+//@   trusted
+//@   modifies nothing
+//@   ensures result != nil && fresh(result) && result.reader == r
+
+//@ contract (*StreamReader).Close
+//@   trusted
+//@   modifies sr.reader, sr._seeker
+//@   ensures result == nil
+
+//@ contract (*Protocol).Reader
+//@   props C12
+//@   modifies nothing
+//@   ensures typeis(result, *StreamReader) && result.(*StreamReader) != nil && fresh(result.(*StreamReader)) && result.(*StreamReader).reader == r
+
+//@ contract (*StreamReader).ReadEnvelopeEnd
+//@   props C12
+//@   pure
+//@   ensures result == nil
+
+// ---------------------------------------------------------------------------
+// Responders (C12): the reply uses the framing of its kind and echoes the
+// request's method name and sequence id.
+
+//@ contract (EnvelopeV1Responder).WriteResponse
+//@   props C12
+//@   requires wlen(w) >= 0 && wlen(w) <= 4611686018427387904 && et >= 0 && len(r.Name) <= 2147483647
+//@   let q0 = wlen(w)
+//@   ensures(version) err == nil ==> be32at(wout(w), q0) & 4294901760 == 2147549184
+//@   ensures(type) err == nil ==> int8(be32at(wout(w), q0)) == et
+//@   ensures(name) err == nil ==> int64(int32(be32at(wout(w), q0 + 4))) == len(r.Name) && forall(k, 0, len(r.Name), wout(w)[q0 + 8 + k] == r.Name[k])
+//@   ensures(seqid) err == nil ==> int32(be32at(wout(w), q0 + 8 + len(r.Name))) == r.SeqID
+
+//@ contract (EnvelopeV0Responder).WriteResponse
+//@   props C12
+//@   requires wlen(w) >= 0 && wlen(w) <= 4611686018427387904 && len(r.Name) <= 2147483647
+//@   let q0 = wlen(w)
+//@   ensures(name) err == nil ==> int64(int32(be32at(wout(w), q0))) == len(r.Name) && forall(k, 0, len(r.Name), wout(w)[q0 + 4 + k] == r.Name[k])
+//@   ensures(type) err == nil ==> int8(wout(w)[q0 + 4 + len(r.Name)]) == et
+//@   ensures(seqid) err == nil ==> int32(be32at(wout(w), q0 + 5 + len(r.Name))) == r.SeqID
+
+// ---------------------------------------------------------------------------
+// Request classification (C12). classify(b0): legacy if b0 == 0, versioned if
+// b0 & 0x80 != 0, bare struct otherwise.
+
+//@ contract (*Protocol).readEnvelopeHeader
+//@   props C12
+//@   requires typeis(sr, *StreamReader) && validSR(sr.(*StreamReader))
+//@   let p0 = rpos(sr.(*StreamReader).reader)
+//@   let v = int32(be32at(rin(sr.(*StreamReader).reader), rpos(sr.(*StreamReader).reader)))
+//@   modifies sr.(*StreamReader).buffer, rpos(sr.(*StreamReader).reader)
+//@   ensures(type) err == nil ==> result.Type == et
+//@   ensures(strictseq) err == nil && v <= 0 ==> result.SeqID == int32(be32at(rin(sr.(*StreamReader).reader), p0 + 8 + len(result.Name))) && int64(int32(be32at(rin(sr.(*StreamReader).reader), p0 + 4))) == len(result.Name)
+//@   ensures(strictname) err == nil && v <= 0 ==> forall(k, 0, len(result.Name), result.Name[k] == rin(sr.(*StreamReader).reader)[p0 + 8 + k])
+//@   ensures(legacyseq) err == nil && v > 0 ==> len(result.Name) == int64(v) && result.SeqID == int32(be32at(rin(sr.(*StreamReader).reader), p0 + 5 + int64(v)))
+//@   ensures(legacyname) err == nil && v > 0 ==> forall(k, 0, len(result.Name), result.Name[k] == rin(sr.(*StreamReader).reader)[p0 + 4 + k])
+
+//@ contract (*Protocol).ReadRequest
+//@   props C12
+//@   requires rpos(r) >= 0 && rpos(r) <= rlen(r) && rlen(r) <= 4611686018427387904
+//@   let p0 = rpos(r)
+//@   let b0 = rin(r)[rpos(r)]
+//@   let avail = rlen(r) - rpos(r)
+//@   ensures(legacy) err == nil && avail >= 2 && b0 == 0 ==> typeis(result, *EnvelopeV0Responder)
+//@   ensures(versioned) err == nil && avail >= 2 && b0 & 128 != 0 ==> typeis(result, *EnvelopeV1Responder)
+//@   ensures(bare) err == nil && avail >= 2 && b0 != 0 && b0 & 128 == 0 ==> typeis(result, *noEnvelopeResponder)
+
+//@ contract (*Protocol).DecodeRequest
+//@   props C12
+//@   let b0 = rin(r)[0]
+//@   let avail = rlen(r)
+//@   ensures(legacy) err == nil && avail >= 2 && b0 == 0 ==> typeis(result1, *EnvelopeV0Responder)
+//@   ensures(versioned) err == nil && avail >= 2 && b0 & 128 != 0 ==> typeis(result1, *EnvelopeV1Responder)
+//@   ensures(bare) err == nil && avail >= 2 && b0 != 0 && b0 & 128 == 0 ==> typeis(result1, *noEnvelopeResponder)
+
+// Whole-envelope and whole-value decoding through the random-access reader is
+// not under contract yet: only its effect on the heap is assumed here.
+//@ contract (*Protocol).DecodeEnveloped
+//@   trusted
+//@   modifies nothing
+//@ contract (*Protocol).Decode
+//@   trusted
+//@   modifies nothing
